@@ -1075,6 +1075,19 @@ func valuePath(v *Val, id int, allowTrim bool, loops map[int]*Event) (ops []stri
 				trim = "right"
 			}
 			pad = v.Args[1]
+			// a cutset string(rune(b)) is the one byte b exactly when b < 0x80 (above that it is a two-byte UTF-8 text):
+			// established by the conditions of the alternative this trim belongs to
+			if cs := stripCT(v.Args[1]); cs != nil && cs.Op == "conv" && len(cs.Args) == 1 && isStringOrBytes(cs.Type) {
+				b := stripCT(cs.Args[0])
+				for b.Op == "conv" && len(b.Args) == 1 && b.Type != nil && b.Args[0].Type != nil && isIntegerType(b.Type) && isIntegerType(b.Args[0].Type) && wideningInt(b.Args[0].Type, b.Type) {
+					b = stripCT(b.Args[0])
+				}
+				if bt, isB := typeUnder(b.Type).(*types.Basic); isB && bt.Kind() == types.Uint8 && loops != nil && loops[forkCondsKey] != nil && len(loops[forkCondsKey].Iter) == 1 {
+					if condHolds(loops[forkCondsKey].Iter[0].Conds, b, "<", mkInt(0x80)) {
+						pad, padIsByte = b, true
+					}
+				}
+			}
 			v = stripCT(v.Args[0])
 		case v.Op == "loopout" && allowTrim && loops != nil && loops[v.ID] != nil && len(v.Args) >= 1:
 			// a slice narrowed by a loop: recognised only as the strip idiom (drop the boundary byte while it is the pad byte)
@@ -1919,12 +1932,14 @@ func verifyShrink(loop *Event, name string) (string, *Val, bool) {
 		return "", nil, false
 	}
 	var lv *Val
-	arm.Conds[0].V.Walk(func(x *Val) bool {
-		if x.Op == "loopvar" && x.ID == loop.LoopID && x.Name == name {
-			lv = x
-		}
-		return true
-	})
+	for _, c := range arm.Conds {
+		c.V.Walk(func(x *Val) bool {
+			if x.Op == "loopvar" && x.ID == loop.LoopID && x.Name == name {
+				lv = x
+			}
+			return true
+		})
+	}
 	if lv == nil {
 		return "", nil, false
 	}
@@ -1935,6 +1950,32 @@ func verifyShrink(loop *Event, name string) (string, *Val, bool) {
 	// the loop runs while the slice is non-empty
 	c1 := arm.Conds[0].V
 	L := mkLen(lv)
+	// a counter kept equal to the slice's length (`for n := len(b); n > 0 && b[n-1] == pad; n-- { b = b[:n-1] }`):
+	// starts as len of the slice's initial value, goes down by one exactly when the slice loses its last byte
+	for cname, cnext := range arm.Next {
+		if cname == name || cnext == nil {
+			continue
+		}
+		var cv *Val
+		arm.Conds[0].V.Walk(func(x *Val) bool {
+			if x.Op == "loopvar" && x.ID == loop.LoopID && x.Name == cname {
+				cv = x
+			}
+			return true
+		})
+		if cv == nil || len(cv.Args) != 1 || len(lv.Args) != 1 || !affEq(cv.Args[0], mkLen(lv.Args[0])) || affOf(cv).Top {
+			continue
+		}
+		if d, ok := affOf(cnext).Add(affOf(cv), -1).IsConst(); !ok || d != -1 {
+			continue
+		}
+		if os.Getenv("FPDEBUG") != "" {
+			fmt.Fprintln(os.Stderr, "  lockstep candidate", cname, cv.Pretty(), "next", cnext.Pretty(), "slice next", next.Pretty())
+		}
+		if next.Args[1] == nil && next.Args[2] != nil && affEq(next.Args[2], cnext) {
+			L = cv
+		}
+	}
 	nonEmpty := false
 	if c1.Op == "binop" && len(c1.Args) == 2 {
 		a0, a1 := c1.Args[0], c1.Args[1]
